@@ -1170,6 +1170,9 @@ func init() {
 			holder = append(holder, op)
 		}
 		c.Clients = append(c.Clients, holder)
+		if rng.Chance(0.2) {
+			c.Clients = append(c.Clients, []Op{{K: "merge"}}) // a merge next to the open batch
+		}
 	})
 	// C10(b): an iterator session concurrent with writers
 	withConcArm("C10", 0.3, func(c *Case, rng *vrt.Rand, tier string) {
@@ -1189,6 +1192,9 @@ func init() {
 			sess = append(sess, op)
 		}
 		c.Clients = append(c.Clients, sess)
+		if rng.Chance(0.2) {
+			c.Clients = append(c.Clients, []Op{{K: "merge"}}) // a merge next to the iterator session
+		}
 	})
 	// C20(b): a backup concurrent with writers
 	withConcArm("C20", 0.3, func(c *Case, rng *vrt.Rand, tier string) {
@@ -1203,6 +1209,9 @@ func init() {
 			bk = append(bk, Op{K: "backup", N: b + 1})
 		}
 		c.Clients = append(c.Clients, bk)
+		if rng.Chance(0.2) {
+			c.Clients = append(c.Clients, []Op{{K: "merge"}}) // a merge next to the backup
+		}
 	})
 }
 
